@@ -153,5 +153,143 @@ def normalize_body(body):
             return r
         if k == "Match":
             return _match_to_if(n)
+        if k in ("AssignOp", "Assign") and isinstance(n.get("r"), dict) and isinstance(n.get("l"), dict) and _simple(n["l"]):
+            r = n["r"]
+            # `x op= { S; e }` is `{ S; x op= e }` (x a plain place)
+            if r.get("k") == "Block" and r.get("stmts") and "expr" in r:
+                inner = fn(dict(n, r=r["expr"])) or dict(n, r=r["expr"])
+                return {"k": "Block", "stmts": list(r["stmts"]) + [inner], "s": r.get("s", n.get("s", ""))}
+            # `x += if c {a} else {b}` / `x += match e { P => a, .. }`: the update moves into the branches
+            if r.get("k") == "If" and "el" in r and r["c"].get("k") != "Let":
+                def push(br):
+                    return {"k": "Block", "stmts": [dict(n, r=_tail_value(br))], "s": br.get("s", n.get("s", ""))}
+                if _tail_value(r["th"]) is not None and _tail_value(r["el"]) is not None:
+                    return _mk_if(r["c"], push(r["th"]), fn_if_else(r["el"], n), n)
+            if r.get("k") == "Match" and r.get("src") == "Normal" and all(a["body"].get("k") != "Block" or "expr" in a["body"] for a in r["arms"]):
+                def push_arm(body):
+                    if body.get("k") == "Block":
+                        inner = fn(dict(n, r=body["expr"])) or dict(n, r=body["expr"])
+                        return {"k": "Block", "stmts": list(body.get("stmts", [])) + [inner], "s": body.get("s", n.get("s", ""))}
+                    inner = fn(dict(n, r=body)) or dict(n, r=body)
+                    return {"k": "Block", "stmts": [inner], "s": body.get("s", n.get("s", ""))}
+                m = dict(r)
+                m["arms"] = [dict(a, body=push_arm(a["body"])) for a in r["arms"]]
+                return m
+            # `x += 0`, `x |= 0`, `x ^= 0`, `x -= 0` do nothing
+            if k == "AssignOp" and n.get("op") in ("+=", "-=", "|=", "^=") and r.get("k") == "Lit" and r.get("lk") == "int" and str(r.get("v")) == "0":
+                return {"k": "Block", "stmts": [], "s": n.get("s", "")}
         return None
+
+    def fn_if_else(el, asg):
+        if el.get("k") == "If" and "el" in el and el["c"].get("k") != "Let" and _tail_value(el["th"]) is not None:
+            return _mk_if(el["c"], {"k": "Block", "stmts": [dict(asg, r=_tail_value(el["th"]))], "s": el.get("s", "")}, fn_if_else(el["el"], asg), el)
+        return {"k": "Block", "stmts": [dict(asg, r=_tail_value(el))], "s": el.get("s", asg.get("s", ""))}
     return _rewrite(body, fn)
+
+
+def _tail_value(br):
+    """the value expression of a branch: the branch itself, or the tail of a statement-free block"""
+    if br.get("k") == "Block":
+        if br.get("stmts") or "expr" not in br:
+            return None
+        return _tail_value(br["expr"])
+    return br
+
+
+# ---------------------------------------------------------------------------------------------------------------
+# inlining of helpers that the reference tree does not have
+
+def _has_ret(body):
+    return any(x.get("k") == "Ret" for x in _walk(body))
+
+
+def _rename_ids(node, suffix, keep):
+    for x in _walk(node):
+        if x.get("k") in ("PBind",) and "id" in x and x["id"] not in keep:
+            x["id"] = "%s~%s" % (x["id"], suffix)
+        if x.get("k") == "Path" and x.get("res") == "local" and "id" in x and x["id"] not in keep:
+            x["id"] = "%s~%s" % (x["id"], suffix)
+    return node
+
+
+def _subst_local(node, lid, expr):
+    def fn(n):
+        if n.get("k") == "Path" and n.get("res") == "local" and n.get("id") == lid:
+            r = copy.deepcopy(expr)
+            return r
+        return None
+    return _rewrite(node, fn)
+
+
+def inline_new_helpers(facts, known):
+    """For every call of a crate function that is not in `known` (and is small, has no explicit `return`, is not
+    recursive): replace the call by a block binding the parameters and evaluating the helper's body."""
+    by_path = {}
+    for b in facts.bodies:
+        if b.dk in ("Fn", "AssocFn"):
+            by_path.setdefault(b.path, []).append(b)
+    new = {p: bs[0] for p, bs in by_path.items() if p not in known and len(bs) == 1}
+    if not new:
+        return 0
+    ok_helpers = {}
+    for p, h in new.items():
+        body = h.body
+        if body.get("k") != "Block":
+            continue
+        if _has_ret(body) or sum(1 for _ in _walk(body)) > 400:
+            continue
+        if any(x.get("k") in ("Call", "MethodCall") and x.get("callee") is not None and facts.paths[x["callee"]] == p for x in _walk(body)):
+            continue
+        if not all(q.get("k") == "PBind" for q in h.params):
+            continue
+        ok_helpers[p] = h
+    if not ok_helpers:
+        return 0
+    counter = [0]
+
+    def expand_in(body, depth=0):
+        def fn(n):
+            if n.get("k") not in ("Call", "MethodCall") or n.get("callee") is None:
+                return None
+            p = facts.paths[n["callee"]]
+            h = ok_helpers.get(p)
+            if h is None:
+                return None
+            args = ([n["recv"]] if n.get("k") == "MethodCall" else []) + list(n.get("args", []))
+            if len(args) != len(h.params):
+                return None
+            counter[0] += 1
+            suffix = "h%d" % counter[0]
+            hb = _rename_ids(copy.deepcopy(h.body), suffix, set())
+            stmts = []
+            for q, a in zip(h.params, args):
+                pid = "%s~%s" % (q["id"], suffix)
+                a0 = a
+                # auto-ref'd receivers and simple places are substituted; anything else is bound once
+                if _simple(a0) and not q.get("mut"):
+                    hb = _subst_local(hb, pid, a0)
+                else:
+                    pat = copy.deepcopy(q)
+                    pat["id"] = pid
+                    stmts.append({"k": "LetStmt", "pat": pat, "init": a0, "s": n.get("s", "")})
+            blk = {"k": "Block", "stmts": stmts + list(hb.get("stmts", [])), "inlined": p}
+            if "expr" in hb:
+                blk["expr"] = hb["expr"]
+            for key in ("s", "t", "ta"):
+                if key in n:
+                    blk[key] = n[key]
+            if hb.get("unsafe") or h.unsafe:
+                blk["unsafe"] = True
+            return blk
+        return _rewrite(body, fn)
+    n_sites = 0
+    for b in facts.bodies:
+        if b.path in ok_helpers and False:
+            continue
+        for _round in range(2):
+            before = counter[0]
+            b.body = expand_in(b.body)
+            if counter[0] == before:
+                break
+        n_sites = counter[0]
+    return n_sites
